@@ -27,6 +27,7 @@ CASES = [
     Case('mpi_reduce_wrong_row', SW + 'generic_implicit_MPI.py', 'L.dt * self.coll.Qmat[m + 1, self.rank + 1] * L.f[self.rank + 1], recvBuf', 'L.dt * self.coll.Qmat[self.rank + 1, m + 1] * L.f[self.rank + 1], recvBuf', 'C02.R7', 'generic_implicit_MPI.integrate'),
     Case('cached_alias_of_QI_read_by_the_sweep', IMEX, "        self.QE = self.get_Qdelta_explicit(qd_type=self.params.QE)\n", "        self.QE = self.get_Qdelta_explicit(qd_type=self.params.QE)\n        self.QIc = self.QI\n", 'C02.R6b', 'imex_1st_order ::', more=[("integral[m] -= L.dt * (self.QI[m + 1, j] * L.f[j].impl", "integral[m] -= L.dt * (self.QIc[m + 1, j] * L.f[j].impl")], note='after updateVariableCoeffs rebinds self.QI the cached name still holds QI(1)'),
     Case('mpi_sweeper_f_at_next_node_time', SW + 'generic_implicit_MPI.py', "L.f[self.rank + 1] = P.eval_f(L.u[self.rank + 1], L.time + L.dt * self.coll.nodes[self.rank])", "L.f[self.rank + 1] = P.eval_f(L.u[self.rank + 1], L.time + L.dt * self.coll.nodes[self.rank + 1])", 'C02.R10', 'generic_implicit_MPI'),
+    Case('sweep_index_clamped', 'pySDC/core/sweeper.py', "        if hasattr(self, \"genQI\") and self.genQI.isKDependent():", "        k = min(k, self.coll.num_nodes + 1)\n        if hasattr(self, \"genQI\") and self.genQI.isKDependent():", 'C02.R6', 'updateVariableCoeffs'),
     # ---- benign twins: behaviour-preserving edits that must stay silent
     Case('twin_cached_constant_matrix', IMEX, "        self.QE = self.get_Qdelta_explicit(qd_type=self.params.QE)\n", "        self.QE = self.get_Qdelta_explicit(qd_type=self.params.QE)\n        self.QIunused = self.QI\n", benign=True, note='a stale copy nobody reads changes nothing'),
     Case('twin_rename_locals', GI, 'integral', 'known_terms', benign=True, count=7),
